@@ -55,6 +55,7 @@ type Model struct {
 	pin       *Ref
 	seq       int
 	memo      *memo
+	everUsed  map[Root]bool // every root ever inserted (pruned names are not reused for new blocks)
 }
 
 // memo caches derived data between mutations (cleared by every mutating operation).
@@ -89,7 +90,7 @@ func (m *Model) mm() *memo {
 
 func NewModel(spe Slot, fin, just Checkpoint, anchorRoot Root, anchorSlot Slot, anchorParent Root, bal []uint64) *Model {
 	m := &Model{spe: spe, nodes: map[Ref]*mnode{}, first: map[Root]Slot{}, votes: map[uint64]mvote{},
-		balances: append([]uint64{}, bal...), justified: just, finalized: fin}
+		balances: append([]uint64{}, bal...), justified: just, finalized: fin, everUsed: map[Root]bool{anchorRoot: true}}
 	n := &mnode{ref: Ref{anchorRoot, anchorSlot}, parentRoot: anchorParent, je: just.Epoch, fe: fin.Epoch}
 	m.add(n)
 	m.first[anchorRoot] = anchorSlot
@@ -146,6 +147,7 @@ func (m *Model) ProcessBlock(parent, root Root, slot Slot, je, fe Epoch) bool {
 		fparent: m.nodes[Ref{parent, ps}], je: je, fe: fe}
 	m.add(n)
 	m.first[root] = slot
+	m.everUsed[root] = true
 	return true
 }
 
@@ -519,7 +521,7 @@ func (m *Model) Key() string {
 	for _, v := range vs {
 		fmt.Fprintf(&sb, "v%d=%s e%d;", v, m.votes[v].ref, m.votes[v].epoch)
 	}
-	fmt.Fprintf(&sb, "bal%v J%s/%d F%s/%d pin%v", m.balances, rootName(m.justified.Root), m.justified.Epoch,
+	fmt.Fprintf(&sb, "used%d bal%v J%s/%d F%s/%d pin%v", len(m.everUsed), m.balances, rootName(m.justified.Root), m.justified.Epoch,
 		rootName(m.finalized.Root), m.finalized.Epoch, m.pin)
 	return sb.String()
 }
@@ -545,7 +547,10 @@ func mkRoot(b byte, name string) Root {
 // Clone: deep copy (used by menus to classify candidate operations without touching the state).
 func (m *Model) Clone() *Model {
 	c := &Model{spe: m.spe, nodes: map[Ref]*mnode{}, first: map[Root]Slot{}, votes: map[uint64]mvote{},
-		balances: append([]uint64{}, m.balances...), justified: m.justified, finalized: m.finalized, seq: m.seq}
+		balances: append([]uint64{}, m.balances...), justified: m.justified, finalized: m.finalized, seq: m.seq, everUsed: map[Root]bool{}}
+	for k := range m.everUsed {
+		c.everUsed[k] = true
+	}
 	mp := map[*mnode]*mnode{}
 	for _, n := range m.order {
 		nn := *n
